@@ -75,7 +75,8 @@ class CaseCtx:
     # -- monitors call these ------------------------------------------------
     def violation(self, key: str, msg: str, **detail: Any) -> None:
         """key = mechanism key (never a seed / hash / random value)."""
-        if len(self.violations) < 20:
+        n_key = sum(1 for v in self.violations if v["key"] == key)
+        if n_key < 3 and len(self.violations) < 120:
             self.violations.append(
                 {"key": key, "msg": msg[:2000], "detail": jsonable(detail)}
             )
